@@ -20,7 +20,14 @@ import (
 // without requiring an explicit tree traversal.
 // It also means we only build the folded tree.
 // Some methods are split so they can be used by propfold.
-type Folder struct{}
+type Folder struct {
+	// NoLiteralCheck disables the "cannot do math on ... literal" errors.
+	// It is for query transforms that substitute values for columns
+	// e.g. "" for a column that is missing from one source of a union.
+	// These are not literals in the source code and the result must be
+	// the same as evaluating the original expression at run time.
+	NoLiteralCheck bool
+}
 
 var _ Builder = (*Folder)(nil)
 
@@ -38,7 +45,8 @@ func (f Folder) Unary(token tok.Token, expr Expr) Expr {
 
 func (f Folder) foldUnary(u *Unary) Expr {
 	if c, ok := u.E.(*Constant); ok {
-		if (u.Tok == tok.Add || u.Tok == tok.Sub || u.Tok == tok.BitNot || u.Tok == tok.Div) &&
+		if !f.NoLiteralCheck &&
+			(u.Tok == tok.Add || u.Tok == tok.Sub || u.Tok == tok.BitNot || u.Tok == tok.Div) &&
 			c.Val.Type() != types.Number {
 			panic("cannot do math on " + c.Val.Type().String() + " literal")
 		}
@@ -81,10 +89,10 @@ func (f Folder) Binary(lhs Expr, token tok.Token, rhs Expr) Expr {
 func (f Folder) foldBinary(b *Binary) Expr {
 	lhs, lconst := b.Lhs.(*Constant)
 	rhs, rconst := b.Rhs.(*Constant)
-	if b.Tok == tok.Mod || b.Tok == tok.LShift || b.Tok == tok.RShift ||
+	if !f.NoLiteralCheck && (b.Tok == tok.Mod || b.Tok == tok.LShift || b.Tok == tok.RShift ||
 		b.Tok == tok.AddEq || b.Tok == tok.SubEq || b.Tok == tok.MulEq || b.Tok == tok.DivEq ||
 		b.Tok == tok.ModEq || b.Tok == tok.LShiftEq || b.Tok == tok.RShiftEq ||
-		b.Tok == tok.BitOrEq || b.Tok == tok.BitAndEq || b.Tok == tok.BitXorEq {
+		b.Tok == tok.BitOrEq || b.Tok == tok.BitAndEq || b.Tok == tok.BitXorEq) {
 		if lconst && lhs.Val.Type() != types.Number {
 			panic("cannot do math on " + lhs.Val.Type().String() + " literal")
 		}
@@ -172,19 +180,19 @@ func (f Folder) foldNary(n *Nary) Expr {
 	}
 	switch n.Tok {
 	case tok.Add: // includes Sub
-		ckMath(exprs)
+		f.ckMath(exprs)
 		exprs = commutative(n, OpAdd, nil, Zero)
 	case tok.Mul: // includes Div
-		ckMath(exprs)
+		f.ckMath(exprs)
 		exprs = f.foldMul(exprs)
 	case tok.BitOr:
-		ckMath(exprs)
+		f.ckMath(exprs)
 		exprs = commutative(n, OpBitOr, allones, Zero)
 	case tok.BitAnd:
-		ckMath(exprs)
+		f.ckMath(exprs)
 		exprs = commutative(n, OpBitAnd, Zero, allones)
 	case tok.BitXor:
-		ckMath(exprs)
+		f.ckMath(exprs)
 		exprs = commutative(n, OpBitXor, nil, Zero)
 	case tok.Or:
 		exprs = commutative(n, or, True, False)
@@ -204,7 +212,10 @@ func (f Folder) foldNary(n *Nary) Expr {
 	return n
 }
 
-func ckMath(exprs []Expr) {
+func (f Folder) ckMath(exprs []Expr) {
+	if f.NoLiteralCheck {
+		return
+	}
 	for _, e := range exprs {
 		if c, ok := e.(*Constant); ok && c.Val.Type() != types.Number {
 			panic("cannot do math on " + c.Val.Type().String() + " literal")
